@@ -94,6 +94,14 @@ impl<I: Clone, O: Clone, C: WorkCoalescingCore<I, O>> WorkCoalescingQueue<I, O, 
         }
     }
 
+    /// A queue whose wait list has a ring of `slots` waiters (verification only).
+    #[cfg(blue_verif)]
+    pub fn verif_with_slots(core: C, slots: usize) -> Self {
+        let mut this = Self::new(core);
+        this.wait_list = WaitList::verif_with_slots(slots);
+        this
+    }
+
     /// Get a MutexGuard protecting the [WorkCoalescingCore].
     pub fn get_core(&self) -> MutexGuard<'_, C> {
         self.core.lock().unwrap()
